@@ -1,5 +1,5 @@
 #!/usr/bin/env python3
-"""Developer tool: regenerates tables/panic_sites_c10.json and the C10 entries of known_findings.json from the
+"""Developer tool: regenerates tables/panic_sites.json and the C10 entries of known_findings.json from the
 review notes below (reasons are attached per function/line *at review time*; the table itself stores
 semantic keys). Re-run after a change of the term engine, then re-read the diff of the table."""
 import sys,glob,collections,json
@@ -88,7 +88,7 @@ R = {
  ("roles/src/validator/messages/consensus.rs","EpochNumber::next"): {0:"epoch numbers are engine-assigned (local state)"},
  ("roles/src/validator/messages/genesis.rs","build"): {0:"build() of a local Genesis whose protocol version was validated at construction"},
  ("roles/src/validator/messages/schedule.rs","Schedule::new"): {0:"loop index over the validator list"},
- ("roles/src/validator/messages/schedule.rs","view_leader"): {153:"leaders is non-empty (Schedule::new rejects a schedule without leaders, C07.3); index is % leaders.len()", 154:"index drawn from self.leaders, built from valid indices in Schedule::new", 161:"index drawn from self.leaders", 162:"partial sums of leader weights <= total weight (checked_add in Schedule::new)", 167:"eligibility < leader_weight = sum of leader weights, so the loop returns"},
+ ("roles/src/validator/messages/schedule.rs","view_leader"): {157:"leaders is non-empty (Schedule::new rejects a schedule without leaders, C07.3); index is % leaders.len()", 158:"index drawn from self.leaders, built from valid indices in Schedule::new", 165:"index drawn from self.leaders", 166:"partial sums of leader weights <= total weight (checked_add in Schedule::new)", 171:"eligibility < leader_weight = sum of leader weights, so the loop returns"},
  ("roles/src/validator/messages/schedule.rs","max_faulty_weight"): {0:"total_weight >= 1 (Schedule::new rejects zero weights and empty schedules, C07.3)"},
  ("roles/src/validator/messages/schedule.rs","quorum_threshold"): {0:"f = (n-1)/5 <= n (C07 lemma)"},
  ("roles/src/validator/messages/schedule.rs","subquorum_threshold"): {0:"3f <= 3(n-1)/5 < n <= u64::MAX (C07 lemma)"},
@@ -104,14 +104,7 @@ R = {
  ("roles/src/validator/messages/v2/replica_timeout.rs","TimeoutQC::weight"): {0:"sum of weights of disjoint signer sets <= total weight after verify; before verify the sets may overlap but each <= total and there are at most n groups... bounded by n*total_weight which may exceed u64 only for adversarial unverified QCs: weight() is called after verify()"},
 }
 FINDINGS = {
- ("network/src/mux/mod.rs", 273): "F4",
- ("roles/src/validator/messages/genesis.rs", 42): "F5",
- ("roles/src/validator/messages/schedule.rs", 149): "F1",
- ("roles/src/validator/messages/schedule.rs", 244): "F2",
  ("roles/src/validator/messages/consensus.rs", 21): "F6",
- ("protobuf/src/proto_fmt.rs", 232): "F7",
- ("protobuf/src/std_conv.rs", 67): "F3",
- ("protobuf/src/std_conv.rs", 49): "F3",
 }
 def reason_for(s):
     f=s.fn.file; root=s.key.split(' | ')[1]
@@ -135,4 +128,4 @@ for s in out:
 print("tabled",sum(e['count'] for e in tab.values()),"keys",len(tab),"unknown",len(unk),"findings",len(finds))
 for s in unk: print("UNK",s.loc(),s.kind,s.key[:200])
 for fid,s in finds: print("FINDING",fid,s.loc(),s.key)
-json.dump({"_doc":"reviewed may-panic sites reachable from the C10 root set; key = crate | root function | kind | callee/op | operand term (types instead of local names); 'at' is informational (position when reviewed)","sites":list(tab.values())},open('/verif/tables/panic_sites_c10.json','w'),indent=1)
+json.dump({"_doc":"reviewed may-panic sites reachable from the C10 root set; key = crate | root function | kind | callee/op | operand term (types instead of local names); 'at' is informational (position when reviewed)","sites":list(tab.values())},open('/verif/tables/panic_sites.json','w'),indent=1)
